@@ -175,6 +175,107 @@ def guard_switches(body, variant):
     return res
 
 
+CMP_OPS = ("Gt", "Ge", "Lt", "Le", "Eq", "Ne")
+MINMAX = ("core::cmp::min", "core::cmp::max", "core::cmp::Ord::min", "core::cmp::Ord::max")
+
+
+def leaves(body, op, depth=0):
+    """value leaves of an operand: ("v", key) for plain origins, ("len", key) for the length of a
+    container whose origin is key.  Arithmetic, min/max and `as` casts are looked through."""
+    out = set()
+    if depth > 6:
+        return out
+    for r in trace(body, op):
+        if r.kind == "binop" and r.obj is not None:
+            rv = r.obj
+            if rv["k"] == "bin":
+                out |= leaves(body, rv["a"], depth + 1)
+                out |= leaves(body, rv["b"], depth + 1)
+            elif rv["k"] == "un":
+                if rv.get("op") == "PtrMetadata":
+                    for (k, key) in leaves(body, rv["a"], depth + 1):
+                        if k == "v":
+                            out.add(("len", key))
+                else:
+                    out |= leaves(body, rv["a"], depth + 1)
+        elif r.kind == "call" and (r.what.endswith("::len") or r.what.endswith("::len_utf8")) and r.obj is not None and r.obj["args"]:
+            for (k, key) in leaves(body, r.obj["args"][0], depth + 1):
+                if k == "v":
+                    out.add(("len", key))
+        elif r.kind == "call" and (r.what in MINMAX or r.what.endswith("::min") or r.what.endswith("::max")) and r.obj is not None:
+            for a in r.obj["args"]:
+                out |= leaves(body, a, depth + 1)
+        elif r.kind == "via":
+            continue
+        elif r.kind == "const":
+            out.add(("c", str(r.what)))
+        else:
+            out.add(("v", (r.kind, r.bb if r.kind != "param" else -1, str(r.what), r.fields)))
+    return out
+
+
+def guard_comparisons(body, variant):
+    """(switch block, error edge, binop rvalue) for guards of `variant` that branch on a comparison"""
+    out = []
+    for (sw, err_edge) in guard_switches(body, variant):
+        t = body.term(sw)
+        for r in trace(body, t["d"]):
+            if r.kind == "binop" and r.obj is not None and r.obj.get("k") == "bin" and r.obj.get("op") in CMP_OPS:
+                out.append((sw, err_edge, r.obj))
+    return out
+
+
+def site_operands(body, s, mode):
+    """(bound operand leaves, container leaves) / (a leaves, b leaves) of the panic site at block s['bb']"""
+    t = body.term(s["bb"])
+    if mode == "sub":
+        # the assert's condition derives from a checked subtraction
+        for r in trace(body, t["cond"]):
+            if r.kind == "binop" and r.obj is not None and r.obj.get("k") == "bin" and "Sub" in r.obj.get("op", ""):
+                return leaves(body, r.obj["a"]), leaves(body, r.obj["b"])
+        return None
+    if t["k"] != "call" or len(t["args"]) < 2:
+        return None
+    cont = {key for (k, key) in leaves(body, t["args"][0]) if k == "v"}
+    bound = None
+    idx = t["args"][1]
+    if mode == "idx":
+        bound = leaves(body, idx)
+    else:
+        for r in trace(body, idx):
+            if r.kind == "agg" and r.obj is not None and "range::Range" in str(r.what):
+                fl = r.obj.get("fields", [])
+                want = "end" if mode == "end" else "start"
+                if want in fl:
+                    bound = leaves(body, r.obj["ops"][fl.index(want)])
+    if bound is None:
+        return None
+    return bound, cont
+
+
+def relation_ok(body, s, variant, mode):
+    ops = site_operands(body, s, mode)
+    if ops is None:
+        return False, "cannot identify the %s operand of the site" % mode
+    A, B = ops
+    for (sw, err_edge, rv) in guard_comparisons(body, variant):
+        if not (sw != s["bb"] and body.dominates(sw, s["bb"]) and s["bb"] not in body.reachable([err_edge])):
+            continue
+        L = leaves(body, rv["a"])
+        R = leaves(body, rv["b"])
+        if mode == "sub":
+            av = {x for x in A if x[0] == "v"}
+            bv = {x for x in B if x[0] == "v"}
+            if (L & av and R & bv) or (L & bv and R & av):
+                return True, "guard at bb%d compares the two operands of the subtraction" % sw
+        else:
+            bv = {x for x in A if x[0] != "c"}
+            lens = {("len", key) for key in B}
+            if (L & bv and R & lens) or (R & bv and L & lens):
+                return True, "guard at bb%d compares the %s bound with the length of the indexed container" % (sw, mode)
+    return False, "no dominating Err(%s) guard compares the %s with %s" % (variant, "minuend and subtrahend" if mode == "sub" else mode + " bound", "each other" if mode == "sub" else "the container's length")
+
+
 def is_guarded(body, site_bb, variant, facts=None):
     gs = guard_switches(body, variant)
     for (sw, err_edge) in gs:
@@ -235,6 +336,9 @@ def run(facts, rep, cfg="default"):
         counts[kind] += 1
         if kind == "guarded":
             ok, why = is_guarded(facts.bodies[fn], s["bb"], d[1], facts)
+            if ok and len(d) > 2 and d[2]:
+                ok, why2 = relation_ok(facts.bodies[fn], s, d[1], d[2])
+                why = why + "; " + why2
             rep.check(ok, "panicfree", fnk, "guarded|" + key.split("|", 1)[1], "panic site `%s` at %s is no longer behind its guard (%s): %s" % (s["snip"], s["ln"], d[1], why), site=s["ln"], detail="`%s`: %s" % (s["snip"], why))
         elif kind == "invariant":
             name = d[1]
